@@ -158,6 +158,20 @@ var zzScopeCases = []zzScopeCase{
 	{"catch-then-continue-in-scope", "x = W; try { var x = V; throw 1 } catch e { }; x", func(v, w int64) int64 { return w }},
 	{"return-from-nested-blocks", "x = W; f = func() { for { if true { var x = V; return x } } }; f(); x", func(v, w int64) int64 { return w }},
 	{"break-restores-scope", "x = W; for { var x = V; break }; x", func(v, w int64) int64 { return w }},
+	{"for-in-variable-binds-in-the-loop", "x = W; for x in [V] { }; x", func(v, w int64) int64 { return w }},
+	{"for-in-two-variables-bind-in-the-loop", "x = W; y = W; for x, y in {\"k\": V} { }; x + y - W", func(v, w int64) int64 { return w }},
+	{"catch-variable-binds-in-the-catch-block", "x = W; try { throw 1 } catch x { }; x", func(v, w int64) int64 { return w }},
+	{"var-list-binds-here", "x = W; y = W; if true { var x, y = [V, V] }; x + y - W", func(v, w int64) int64 { return w }},
+	{"var-list-binds-here-at-top-of-function", "x = W; y = W; f = func() { var x, y = [V, V]; return x }; f(); x + y - W", func(v, w int64) int64 { return w }},
+	{"var-list-value", "x = W; f = func() { var x, y = [V, W]; return x }; f()", func(v, w int64) int64 { return v }},
+	{"var-several-binds-here", "x = W; y = W; if true { var x, y = V, V }; x + y - W", func(v, w int64) int64 { return w }},
+	{"var-several-from-call-binds-here", "x = W; y = W; g = func() { return V, V }; if true { var x, y = g() }; x + y - W", func(v, w int64) int64 { return w }},
+	{"goroutine-literal-captures-by-reference", "x = W; done = make(chan int64); go func() { x = V; done <- 1 }(); <-done; x", func(v, w int64) int64 { return v }},
+	{"goroutine-literal-in-function-captures-by-reference", "f = func() { var l = W; done = make(chan int64); go func() { l = V; done <- 1 }(); <-done; return l }; f()", func(v, w int64) int64 { return v }},
+	{"goroutine-named-closure-captures-by-reference", "x = W; done = make(chan int64); f = func() { x = V; done <- 1 }; go f(); <-done; x", func(v, w int64) int64 { return v }},
+	{"goroutine-literal-reads-later-write", "x = W; start = make(chan int64); out = make(chan int64); go func() { <-start; out <- x }(); x = V; start <- 1; <-out", func(v, w int64) int64 { return v }},
+	{"deferred-literal-captures-by-reference", "x = W; f = func() { defer func() { x = V }() }; f(); x", func(v, w int64) int64 { return v }},
+	{"module-inside-function", "f = func() { module m { x = V }; return m.x }; f()", func(v, w int64) int64 { return v }},
 	{"error-in-loop-body-caught-outside", "x = W; try { for i in [1] { var x = V; throw 1 } } catch e { }; x", func(v, w int64) int64 { return w }},
 }
 
